@@ -46,7 +46,8 @@ class Job:
     def __init__(self, name, cfgs, initial=None, salpha=(), balpha=(), toks=(), resets=(), clones=(), saves=(),
                  restores=(), news=(), maxdepth=10**6, keep=True, script=None, emit="EmitLast",
                  invariants=("Refines", "Safe", "InRange", "NonNeg"), noovf=True, view=True, slots=(),
-                 extra_defs="", extra_cfg="", mode="bfs", sim=None, conts=(), threads=4, free_ids=None):
+                 extra_defs="", extra_cfg="", mode="bfs", sim=None, conts=(), threads=4, free_ids=None, cov=(0, 0)):
+        self.cov = cov
         self.free_ids = free_ids
         # a continuation ends in a sentinel op that is never enabled: exploration stops after it instead of
         # re-exploring the whole free space around the instances the continuation created
@@ -101,6 +102,8 @@ class Job:
             "mcUseScript == %s" % tla(self.script is not None),
             "mcConts == {%s}" % ",\n  ".join(tla(c) for c in self.conts),
             "mcFreeIds == %s" % tla(set(self.cfgs.keys()) if self.free_ids is None else set(self.free_ids)),
+            "mcCovA == %d" % self.cov[0],
+            "mcCovB == %d" % self.cov[1],
             self.extra_defs,
             "====",
         ]
@@ -113,6 +116,8 @@ class Job:
         c.append(" UseScript <- mcUseScript")
         c.append(" Conts <- mcConts")
         c.append(" FreeIds <- mcFreeIds")
+        c.append(" CovA <- mcCovA")
+        c.append(" CovB <- mcCovB")
         c += ["INIT Init", "NEXT Next"]
         if self.view:
             c.append("VIEW view")
